@@ -161,8 +161,15 @@ func runLosslessFlows(c *Ctx, prop string) Info {
 						if k, ok := x.Val.(*ssa.Const); ok && k.Value != nil && k.Value.String() == "true" {
 							continue
 						}
+						// the receiver's own constructor-fixed field (encParams.Lossless = c.lossless)
+						if val, known := c.boolForCtor(x.Val, fn, r.typ, consts, 0); known && val {
+							continue
+						}
 						// allowed only on a branch that this registration's constructor makes dead
-						if why, dead := deadForCtor(x, consts); dead {
+						if why, dead := deadForCtor(x, consts, func(t types.Type, f int) bool {
+							n := namedOfRecv(t)
+							return n != nil && n.Obj() == r.typ.Obj() && c.fieldOnlySetAtConstruction(r.typ, f)
+						}); dead {
 							_ = why
 							continue
 						}
@@ -213,7 +220,94 @@ func describeValue(v ssa.Value) string {
 
 // deadForCtor: the store is control-dependent on a test of a receiver field whose value, as set by
 // the registered constructor, sends control the other way.
-func deadForCtor(st *ssa.Store, consts map[string]string) (string, bool) {
+// boolForCtor evaluates a bool value inside a method of the codec type for an object built by the
+// registered constructor: constants, loads of receiver fields the constructor fixes (and nothing else
+// ever stores), negation, and phis whose edges agree.
+func (c *Ctx) boolForCtor(v ssa.Value, fn *ssa.Function, typ *types.Named, consts map[string]string, depth int) (val, known bool) {
+	if depth > 4 {
+		return false, false
+	}
+	switch x := v.(type) {
+	case *ssa.Const:
+		if x.Value == nil {
+			return false, false
+		}
+		return x.Value.String() == "true", true
+	case *ssa.UnOp:
+		if x.Op == token.NOT {
+			val, known = c.boolForCtor(x.X, fn, typ, consts, depth+1)
+			return !val, known
+		}
+		if x.Op != token.MUL || len(fn.Params) == 0 || fn.Signature.Recv() == nil {
+			return false, false
+		}
+		fa, ok := x.X.(*ssa.FieldAddr)
+		if !ok || fa.X != ssa.Value(fn.Params[0]) {
+			return false, false
+		}
+		if n := namedOfRecv(fa.X.Type()); n == nil || n.Obj() != typ.Obj() {
+			return false, false
+		}
+		fname := fieldNameOf(fa.X.Type(), fa.Field)
+		k, ok := consts[fname]
+		if !ok || !c.fieldOnlySetAtConstruction(typ, fa.Field) {
+			return false, false
+		}
+		return k == "true", true
+	case *ssa.Phi:
+		first := true
+		for _, e := range x.Edges {
+			ev, ek := c.boolForCtor(e, fn, typ, consts, depth+1)
+			if !ek {
+				return false, false
+			}
+			if first {
+				val, first = ev, false
+			} else if ev != val {
+				return false, false
+			}
+		}
+		return val, !first
+	}
+	return false, false
+}
+
+// fieldOnlySetAtConstruction: every store to field f of typ in library code goes to an object
+// allocated in the storing function itself (a constructor / composite literal).
+func (c *Ctx) fieldOnlySetAtConstruction(typ *types.Named, f int) bool {
+	key := fmt.Sprintf("%p/%d", typ.Obj(), f)
+	if c.ctorOnlyMemo == nil {
+		c.ctorOnlyMemo = map[string]bool{}
+	}
+	if r, ok := c.ctorOnlyMemo[key]; ok {
+		return r
+	}
+	res := true
+	for _, fn := range c.scopeFuncs() {
+		for _, b := range fn.Blocks {
+			for _, ins := range b.Instrs {
+				st, ok := ins.(*ssa.Store)
+				if !ok {
+					continue
+				}
+				fa, ok := st.Addr.(*ssa.FieldAddr)
+				if !ok || fa.Field != f {
+					continue
+				}
+				if n := namedOfRecv(fa.X.Type()); n == nil || n.Obj() != typ.Obj() {
+					continue
+				}
+				if _, fresh := fa.X.(*ssa.Alloc); !fresh {
+					res = false
+				}
+			}
+		}
+	}
+	c.ctorOnlyMemo[key] = res
+	return res
+}
+
+func deadForCtor(st *ssa.Store, consts map[string]string, fixed func(t types.Type, f int) bool) (string, bool) {
 	fn := st.Parent()
 	if len(fn.Params) == 0 || fn.Signature.Recv() == nil {
 		return "", false
@@ -247,7 +341,7 @@ func deadForCtor(st *ssa.Store, consts map[string]string) (string, bool) {
 			}
 			fname := fieldNameOf(fa.X.Type(), fa.Field)
 			val, known := consts[fname]
-			if !known {
+			if !known || !fixed(fa.X.Type(), fa.Field) {
 				continue
 			}
 			fieldTrue := val == "true"
